@@ -151,7 +151,7 @@ class Driver:
         self.snaps = []  # real snapshots, one per action
         self.actions = []
         self.notes = []  # (key suffix, text): oracle failures other than the multiset equation, per action
-        self.excused = []  # ports whose loss by the current action falls under a known-finding key
+        self.causes = []  # per action: (cause, ports) - the ports whose loss by this action falls under a known-finding key
 
     async def start(self):
         net = self.net
@@ -294,8 +294,7 @@ class Driver:
                 if not self.live(i):
                     # 421: the session ended; start-ups still in flight were cancelled by the finally block
                     if others:
-                        cause = "cancel-at-2" if 2 in others else "cancel-at-1"
-                        self.excused = oports
+                        self.causes.append(("cancel-at-2" if 2 in others else "cancel-at-1", oports))
                     self.inflight[i] = []
         elif kind == "resume":
             i, k, o = a[1], a[2], a[3]
@@ -314,8 +313,7 @@ class Driver:
                 else:
                     c = self.conn_of(self.raws[i])
                     if c is not None and self.passive_port(c) is not None:
-                        cause = "overlap"
-                        self.excused = [self.passive_port(c)]  # the listener about to be overwritten
+                        self.causes.append(("overlap", [self.passive_port(c)]))  # the listener about to be overwritten
                 others = [x["stage"] for j, x in enumerate(self.inflight[i]) if j != k]
                 oports = [x["port"] for j, x in enumerate(self.inflight[i]) if j != k]
                 c0 = self.conn_of(self.raws[i])
@@ -327,8 +325,7 @@ class Driver:
                     self.check_421(i, e.get("tried", [e["port"]]) + own)  # `own`: returned by the session's own end
                 if not self.live(i):
                     if others:  # the session died (421 / OSError): its other start-ups were cancelled
-                        cause = "cancel-at-2" if 2 in others else "cancel-at-1"
-                        self.excused = oports
+                        self.causes.append(("cancel-at-2" if 2 in others else "cancel-at-1", oports))
                     self.inflight[i] = []
                 elif new:
                     new[0]["tried"] = e.get("tried", [e["port"]]) + ([new[0]["port"]] if new[0]["stage"] == 1 else [])
@@ -358,8 +355,7 @@ class Driver:
             if self.live(i):
                 stages = [e["stage"] for e in self.inflight[i]]
                 if stages:
-                    cause = "cancel-at-2" if 2 in stages else "cancel-at-1"
-                    self.excused = [e["port"] for e in self.inflight[i]]
+                    self.causes.append(("cancel-at-2" if 2 in stages else "cancel-at-1", [e["port"] for e in self.inflight[i]]))
                 if how == "quit":
                     self.raws[i].writer.write(b"QUIT\r\n")
                 elif how == "drop":
@@ -373,8 +369,7 @@ class Driver:
             self.events.append([CLOSEALL, 0, 0, 0])
             stages = [e["stage"] for i in range(len(self.raws)) if self.live(i) for e in self.inflight[i]]
             if stages:
-                cause = "cancel-at-2" if 2 in stages else "cancel-at-1"
-                self.excused = [e["port"] for i in range(len(self.raws)) if self.live(i) for e in self.inflight[i]]
+                self.causes.append(("cancel-at-2" if 2 in stages else "cancel-at-1", [e["port"] for i in range(len(self.raws)) if self.live(i) for e in self.inflight[i]]))
             await self.server.close()
             self.closed = True
             await self.settle_and_collect()
@@ -387,9 +382,9 @@ class Driver:
         obs["codes"] = ["227" if c == "229" else c for c in codes]
         obs["missing"] = sorted(missing.elements())
         obs["extra"] = sorted(extra.elements())
-        obs["cause"] = cause
-        obs["excused"] = sorted(self.excused)
-        self.excused = []
+        obs["causes"] = [(c, sorted(ps)) for (c, ps) in self.causes]
+        obs["cause"] = self.causes[0][0] if self.causes else None
+        self.causes = []
         obs["notes"] = self.notes
         self.notes = []
         self.actions.append(list(a))
@@ -491,13 +486,20 @@ def oracle_findings(d):
                         f"port(s) {real['extra']} duplicated / foreign (pool + live sessions hold more than configured; pool {real['pool']}, "
                         f"configured {d.ports}) after {d.actions[: k + 1]}"))
         if newly or new_orph:
-            excused = collections.Counter(real.get("excused", []))
-            other_lost = newly - excused
-            other_orph = [p for p in new_orph if p not in excused]
-            if real["cause"] in KEY_OF_CAUSE and (newly & excused or [p for p in new_orph if p in excused]):
-                out.append((k, KEY_OF_CAUSE[real["cause"]],
-                            f"port(s) {sorted((newly & excused).elements())} lost, listener(s) {[p for p in new_orph if p in excused]} orphaned "
-                            f"by action {d.actions[k]} ({real['cause']}; pool {real['pool']}, configured {d.ports}) after {d.actions[: k + 1]}"))
+            # one action can do both: a completing start-up overwrites a listener (F5b) and, answering 503 on IPv6,
+            # ends the session, which cancels the remaining start-ups (F5)
+            other_lost = newly
+            other_orph = list(new_orph)
+            for cause, ports in real.get("causes", []):
+                excused = collections.Counter(ports)
+                mine_lost = other_lost & excused
+                mine_orph = [p for p in other_orph if p in excused]
+                if cause in KEY_OF_CAUSE and (mine_lost or mine_orph):
+                    out.append((k, KEY_OF_CAUSE[cause],
+                                f"port(s) {sorted(mine_lost.elements())} lost, listener(s) {mine_orph} orphaned "
+                                f"by action {d.actions[k]} ({cause}; pool {real['pool']}, configured {d.ports}) after {d.actions[: k + 1]}"))
+                other_lost = other_lost - excused
+                other_orph = [p for p in other_orph if p not in excused]
             if other_lost or other_orph:
                 out.append((k, "c11-lost-" + str(d.actions[k][0]),
                             f"port(s) {sorted(other_lost.elements())} lost, listener(s) {other_orph} orphaned by action {d.actions[k]} "
@@ -721,7 +723,7 @@ def correspondence(ctx, budget=None):
           ([30001, 30002], 1, 6, 500, True), ([30001], 2, 5, 400, True)]
     if thorough:
         ex = [([30001], 2, 8, 6000, False), ([30001, 30002], 2, 7, 12000, False), ([30001, 30002, 30003], 2, 6, 8000, False),
-              ([], 2, 4, 200, False), ([30001, 30002], 2, 6, 6000, True), ([30001], 2, 7, 3000, True)]
+              ([], 2, 4, 200, False), ([30001, 30002], 2, 6, 3000, True), ([30001], 2, 7, 1500, True)]
     n_ex = 0
     for ports, ms, depth, bud, v6 in ex:
         for d in exhaustive_dfs(ports, ms, depth, bud, v6):
